@@ -47,6 +47,7 @@ func Report(r *ev.Run, b *Built, vs []mon.V) {
 			"spec":       b.Spec,
 			"cfg":        CfgSummary(b.C),
 			"around":     mon.Around(b.C, v.Seq, 120, 5),
+			"explains":   v.Extra,
 		})
 	}
 }
